@@ -314,6 +314,7 @@ class NpProxy:
             'median': self._no_sym('median'),
             'searchsorted': self._no_sym('searchsorted'),
             'count_nonzero': self._count_nonzero,
+            'sqrt': self._sqrt,
             'float64': _Float64,
             'double': _Float64,
         }
@@ -333,6 +334,17 @@ class NpProxy:
         return attr
 
     # --- helpers
+    def _sqrt(self, x, *a, **k):
+        # exact square roots of concrete scalars (np.sqrt(2) would contaminate identities by 1e-16)
+        if isinstance(x, (int, float, real_np.integer, real_np.floating)) and not a and not k:
+            xf = core._to_fraction(x) if x == x and abs(x) != math.inf else None
+            if xf is not None and xf >= 0:
+                r = core._isqrt_frac(xf)
+                if r is not None:
+                    return real_np.float64(float(r))
+                return R.const(xf).sqrt()
+        return real_np.sqrt(x, *a, **k)
+
     def _no_sym(self, name):
         f = getattr(real_np, name)
 
@@ -584,6 +596,184 @@ def _stub_for(name, obj):
     return None
 
 
+
+# ------------------------------------------------------------------ scipy.sparse shim (dense-backed)
+
+def _mm(a, b):
+    a = real_np.asarray(a)
+    b = real_np.asarray(b)
+    if a.dtype == object or b.dtype == object:
+        return wrap(wrap(a) @ wrap(b)) if a.ndim and b.ndim else wrap(a) * wrap(b)
+    return a @ b
+
+
+class DenseSparse:
+    """stands in for scipy.sparse matrices that have to carry symbolic entries"""
+    ndim = 2
+
+    def __init__(self, a):
+        if isinstance(a, DenseSparse):
+            a = a.a
+        elif hasattr(a, 'toarray'):
+            a = a.toarray()
+        a = real_np.asarray(a)
+        self.a = wrap(a) if a.dtype == object else a
+
+    @property
+    def shape(self):
+        return self.a.shape
+
+    @property
+    def T(self):
+        return DenseSparse(self.a.T)
+
+    def transpose(self, *a, **k):
+        return DenseSparse(self.a.T)
+
+    def __matmul__(self, o):
+        if isinstance(o, DenseSparse):
+            return DenseSparse(_mm(self.a, o.a))
+        if hasattr(o, 'toarray'):
+            return DenseSparse(_mm(self.a, o.toarray()))
+        return _mm(self.a, o)
+
+    def __rmatmul__(self, o):
+        if hasattr(o, 'toarray'):
+            return DenseSparse(_mm(o.toarray(), self.a))
+        return _mm(o, self.a)
+
+    dot = __matmul__
+
+    def multiply(self, o):
+        ob = o.a if isinstance(o, DenseSparse) else (o.toarray() if hasattr(o, 'toarray') else o)
+        if self.a.dtype == object or (isinstance(ob, real_np.ndarray) and ob.dtype == object) or isinstance(ob, R):
+            return DenseSparse(wrap(self.a) * (wrap(ob) if isinstance(ob, real_np.ndarray) else ob))
+        return DenseSparse(self.a * ob)
+
+    def __mul__(self, o):
+        if isinstance(o, (int, float, R)):
+            return self.multiply(o)
+        return self.__matmul__(o)
+
+    __rmul__ = __mul__
+
+    def __add__(self, o):
+        ob = o.a if isinstance(o, DenseSparse) else (o.toarray() if hasattr(o, 'toarray') else o)
+        return DenseSparse(wrap(self.a) + ob if self.a.dtype == object else self.a + ob)
+
+    def __sub__(self, o):
+        ob = o.a if isinstance(o, DenseSparse) else (o.toarray() if hasattr(o, 'toarray') else o)
+        return DenseSparse(self.a - ob)
+
+    def __neg__(self):
+        return DenseSparse(-self.a)
+
+    def __truediv__(self, o):
+        return DenseSparse(self.a / o)
+
+    def __getitem__(self, key):
+        r = self.a[key]
+        if isinstance(r, real_np.ndarray) and r.ndim == 2:
+            return DenseSparse(r)
+        if isinstance(r, real_np.ndarray) and r.ndim == 1:
+            # scipy returns 2-d for row/column slices
+            if isinstance(key, tuple) and isinstance(key[0], (int, real_np.integer)):
+                return DenseSparse(r[None, :])
+            if isinstance(key, tuple) and len(key) > 1 and isinstance(key[1], (int, real_np.integer)):
+                return DenseSparse(r[:, None])
+            return DenseSparse(r[None, :])
+        return r
+
+    def tocsc(self): return self
+    def tocsr(self): return self
+    def tocoo(self): return self
+    def asformat(self, *a, **k): return self
+    def copy(self): return DenseSparse(self.a.copy())
+    def toarray(self): return self.a
+    def todense(self): return self.a
+    def diagonal(self): return self.a.diagonal()
+    def sum(self, axis=None): return self.a.sum(axis=axis)
+    def __array__(self, dtype=None, copy=None): return real_np.asarray(self.a)
+
+
+class _SparseLinalgProxy:
+    def cg(self, V, b, *a, **k):
+        import scipy.sparse.linalg as ssl
+        Vd = V.a if isinstance(V, DenseSparse) else (V.toarray() if hasattr(V, 'toarray') else real_np.asarray(V))
+        if Vd.dtype != object and not _any_sym((b,)):
+            return ssl.cg(V if not isinstance(V, DenseSparse) else V.a, b, *a, **k)
+        # contract: exact solution of V x = b (DESIGN 2.3); tolerance / iteration count outside
+        return A.solve(Vd, real_np.asarray(b)), 0
+
+    def spsolve(self, V, b, *a, **k):
+        return self.cg(V, b)[0]
+
+    def __getattr__(self, name):
+        import scipy.sparse.linalg as ssl
+        return getattr(ssl, name)
+
+
+class _SparseProxy:
+    linalg = _SparseLinalgProxy()
+
+    def diags(self, d, *a, **k):
+        import scipy.sparse as sp
+        if _any_sym((d,)):
+            d = real_np.asarray(d)
+            n = len(d)
+            out = wrap(real_np.zeros((n, n)))
+            for i in range(n):
+                out[i, i] = d[i]
+            return DenseSparse(out)
+        return DenseSparse(sp.diags(d, *a, **k))
+
+    def _mk(self, x, *a, **k):
+        return DenseSparse(x)
+
+    csr_matrix = csc_matrix = coo_matrix = csr_array = _mk
+
+    def issparse(self, x):
+        import scipy.sparse as sp
+        return isinstance(x, DenseSparse) or sp.issparse(x)
+
+    def __getattr__(self, name):
+        import scipy.sparse as sp
+        return getattr(sp, name)
+
+
+class _SpatialDistanceProxy:
+    squareform = staticmethod(A.squareform)
+    cdist = staticmethod(cdist_model)
+
+    def __getattr__(self, name):
+        import scipy.spatial.distance as ssd
+        return getattr(ssd, name)
+
+
+class _SpatialProxy:
+    distance = _SpatialDistanceProxy()
+
+    def __getattr__(self, name):
+        import scipy.spatial as m
+        return getattr(m, name)
+
+
+class ScipyProxy:
+    """stands in for the top-level scipy module (``import scipy.stats`` binds ``scipy``)"""
+
+    def __init__(self):
+        self.stats = _StatsProxy()
+        self.sparse = _SparseProxy()
+        self.spatial = _SpatialProxy()
+
+    def __getattr__(self, name):
+        import scipy
+        import importlib
+        try:
+            return getattr(scipy, name)
+        except AttributeError:
+            return importlib.import_module('scipy.' + name)
+
 PROXY = NpProxy()
 _saved = []
 
@@ -600,6 +790,15 @@ class _StatsProxy:
 
     def __getattr__(self, name):
         f = getattr(self._m, name)
+        if name == 'kendalltau':
+            # SciPy's Python implementation runs unmodified on object arrays: its sorts and
+            # comparisons call R.__lt__/__eq__ and fork through B.__bool__
+            def kt(x, y, *a, **k):
+                if _any_sym((x, y)):
+                    x = real_np.asarray(x).view(real_np.ndarray)
+                    y = real_np.asarray(y).view(real_np.ndarray)
+                return f(x, y, *a, **k)
+            return kt
         if callable(f) and not isinstance(f, type):
             def g(*a, **k):
                 if _any_sym(a, k):
@@ -620,6 +819,14 @@ def install(extra_modules=()):
     if _saved:
         return PROXY
     stats_proxy = _StatsProxy()
+    scipy_proxy = ScipyProxy()
+    import scipy as real_scipy
+    import scipy.sparse as real_sparse
+    import rsatoolbox.util.matrix as rmat
+    real_pcs = rmat.pairwise_contrast_sparse
+
+    def pcs_dense(index_vector):
+        return DenseSparse(real_pcs(index_vector))
     for name, mod in list(sys.modules.items()):
         if not name.startswith('rsatoolbox') or mod is None or name.startswith('rsatoolbox.vis'):
             continue
@@ -629,6 +836,14 @@ def install(extra_modules=()):
                 new = PROXY
             elif gval is sst:
                 new = stats_proxy
+            elif gval is real_scipy:
+                new = scipy_proxy
+            elif gval is real_sparse:
+                new = scipy_proxy.sparse
+            elif gval is real_pcs:
+                new = pcs_dense
+            elif gval is real_sparse.csr_matrix or gval is real_sparse.coo_matrix and not name.endswith('util.matrix'):
+                new = DenseSparse
             elif gval is real_tqdm:
                 new = _Tqdm()
             elif gval is getattr(real_tqdm, 'tqdm', None):
